@@ -10,11 +10,19 @@
 //! nused (tpe id)*  nexisting (pack size)*  nfiles { file_id npacks PACK* ndel PACK* }
 //! PACK := pack_id size time_flag [time] nblobs { blob_id tpe(0 tree,1 data) length compressed(0/1) }
 //!
+//! Mode `exec` (argv[2]): additionally EXECUTE the plan with the real `prune_repository`
+//! (`Repository::prune`) on a synthetic in-memory repository that holds dummy files for the supplied
+//! index ids and pack ids (only for plans without Repack, which would have to read pack contents) and
+//! append what was written/removed: ` | xp=<pack:time,..> xd=<pack:time,..> xrm=<pack,..> xkept=<n>`.
+//!
 //! The end-to-end histories are in c02_e2e.rs.
 use bytesize::ByteSize;
 use rustic_core::jiff::{Span, Timestamp};
 use rustic_core::verif_hooks::c02::*;
+use rustic_core::{ConfigOptions, Credentials, FileType, KeyOptions, PruneOptions, Repository, RepositoryBackends, RepositoryOptions, WriteBackend, repofile::MasterKey};
+use rustic_testing::backend::in_memory_backend::InMemoryBackend;
 use std::num::NonZeroU32;
+use std::sync::Arc;
 use verif_harness::*;
 
 fn limit(t: &mut Toks) -> LimitOption {
@@ -90,6 +98,14 @@ fn plan_case(line: &str) -> String {
         }
         index_files.push((id, f));
     }
+    let file_ids: Vec<u64> = index_files.iter().map(|(i, _)| u(i)).collect();
+    // dummy pack files for every pack named by the listing or by an index entry (removing a missing file is a backend error)
+    let mut pack_ids: Vec<u64> = existing.iter().map(|(p, _)| u(p)).collect();
+    for (_, f) in &index_files {
+        pack_ids.extend(f.packs.iter().chain(f.packs_to_delete.iter()).map(|p| u(&p.id)));
+    }
+    pack_ids.sort_unstable();
+    pack_ids.dedup();
     let input = PlanInput {
         index_files, used, existing, now, keep_pack, keep_delete, repack_cacheable_only,
         repack_uncompressed, repack_all, max_repack, max_unused, no_resize, instant_delete, sizer,
@@ -104,7 +120,13 @@ fn plan_case(line: &str) -> String {
                 else { "other" };
             format!("err {k}")
         }
-        Ok((o, _plan)) => {
+        Ok((o, plan)) => {
+            let exec_mode = std::env::args().nth(2).as_deref() == Some("exec");
+            let xs = if exec_mode && !o.decisions.iter().any(|d| todo_name(d.todo) == "Repack") {
+                format!(" | {}", exec(plan, &file_ids, &pack_ids, instant_delete).unwrap_or_else(|e| format!("xerr={}", e.replace(' ', "_"))))
+            } else {
+                String::new()
+            };
             let d: Vec<String> = o.decisions.iter().map(|d| format!("{}:{}:{}:{}", u(&d.index), u(&d.pack), u8::from(d.delete_mark), todo_name(d.todo))).collect();
             let m: Vec<String> = o.modified.iter().map(|(i, b)| format!("{}:{}", u(i), u8::from(*b))).collect();
             let r: Vec<String> = o.rewritten.iter().map(|i| format!("{}", u(i))).collect();
@@ -117,9 +139,50 @@ fn plan_case(line: &str) -> String {
                 o.sizes[0].0, o.sizes[0].1, o.sizes[1].0, o.sizes[1].1,
                 o.packs_used, o.packs_partly_used, o.packs_unused, o.packs_keep, o.packs_repack,
                 o.packs_unref, o.size_unref
-            )
+            ) + &xs
         }
     }
+}
+
+/// run the real executor on a synthetic repository (see the header)
+fn exec(plan: PrunePlan, file_ids: &[u64], pack_ids: &[u64], instant: bool) -> Result<String, String> {
+    let e = |x: Box<rustic_core::RusticError>| format!("{x:?}").chars().take(160).collect::<String>();
+    let be = Arc::new(InMemoryBackend::new());
+    let bes = RepositoryBackends::new(be.clone(), None);
+    let repo = Repository::new(&RepositoryOptions::default().no_cache(true), &bes)
+        .map_err(e)?
+        .init(&Credentials::Masterkey(MasterKey::new()), &KeyOptions::default(), &ConfigOptions::default())
+        .map_err(e)?;
+    for i in file_ids {
+        be.write_bytes(FileType::Index, &id_from_u64(*i), false, vec![0u8].into()).map_err(e)?;
+    }
+    for p in pack_ids {
+        be.write_bytes(FileType::Pack, &id_from_u64(*p), false, vec![0u8].into()).map_err(e)?;
+    }
+    let opts = PruneOptions::default().instant_delete(instant);
+    repo.prune(&opts, plan).map_err(e)?;
+    let after: Vec<IndexId> = repo.list::<IndexId>().map_err(e)?.collect();
+    let kept = after.iter().filter(|i| file_ids.contains(&u(i))).count();
+    let new_ids: Vec<IndexId> = after.into_iter().filter(|i| !file_ids.contains(&u(i))).collect();
+    let (mut xp, mut xd) = (Vec::new(), Vec::new());
+    let ent = |p: &IndexPack| format!("{}:{}", u(&p.id), p.time.map_or("n".to_string(), |t| t.as_second().to_string()));
+    for r in repo.stream_files_list::<IndexFile>(new_ids).map_err(e)? {
+        let (_, f) = r.map_err(e)?;
+        xp.extend(f.packs.iter().map(ent));
+        xd.extend(f.packs_to_delete.iter().map(ent));
+    }
+    xp.sort();
+    xd.sort();
+    let left: Vec<u64> = repo.list::<PackId>().map_err(e)?.map(|p| u(&p)).collect();
+    let mut xrm: Vec<u64> = pack_ids.iter().copied().filter(|p| !left.contains(p)).collect();
+    xrm.sort_unstable();
+    xrm.dedup();
+    Ok(format!(
+        "xp={} xd={} xrm={} xkept={kept}",
+        xp.join(","),
+        xd.join(","),
+        xrm.iter().map(u64::to_string).collect::<Vec<_>>().join(",")
+    ))
 }
 
 fn main() {
